@@ -60,6 +60,15 @@ def all_sound(world, exts=None):
     return True
 
 
+def gen_plain(path):
+    import re
+    return re.fullmatch(r"[A-Za-z0-9_./-]+", path) is not None and not path.rsplit("/", 1)[-1][0].isdigit()
+
+
+def lz_path(t):
+    return t.encode("utf-8", "surrogateescape").decode("utf-8", "replace").encode("utf-8")
+
+
 class Check:
     id = PROP
     level = "fault_enumeration"
@@ -112,6 +121,13 @@ class Check:
             if rng.random() < 0.3:
                 world["nodes"].append({"path": d + "/dir.zip", "type": "dir"})
                 world["nodes"].append({"path": d + "/dir.zip/inner.txt", "type": "file", "content": "abc"})
+            if rng.random() < 0.3:
+                # two sibling sub-trees with an archive each: they serve as two roots of one query of which only one has `archives`
+                for sd in ("ma", "mb"):
+                    if top + "/" + sd not in have:
+                        world["nodes"].append({"path": top + "/" + sd, "type": "dir"})
+                        world["nodes"].append({"path": "%s/%s/in_%s.%s" % (top, sd, sd, rng.choice(["zip", "jar"])), "type": "file", "zip": {"members": gen_members(rng, 3)}})
+                        world["nodes"].append({"path": "%s/%s/plain.txt" % (top, sd), "type": "file", "content": "p"})
         _, plan = gen.gen_env(rng, world)
         c = rng.choice(CLOCKS)
         import datetime
@@ -307,6 +323,34 @@ class Check:
                 sizes = [int(r[2] or 0) for r in rows1]
                 if any(sizes[i] < sizes[i + 1] for i in range(len(sizes) - 1)):
                     viols.append(Violation(PROP, "C19.order", ["C19.order", "not_sorted", var], {"query": q1, "sizes": sizes[:20]}))
+            # `archives` is an option of one root: with two roots of which only one carries it, members come from that root alone
+            subs = sorted(n["path"] for n in world["nodes"] if n["type"] == "dir" and "/" in n["path"] and n["path"].rsplit("/", 1)[0] == top
+                          and not any(0xDC80 <= ord(ch) <= 0xDCFF for ch in n["path"]) and gen_plain(n["path"]))
+            if var == "plain" and not viols and len(subs) >= 2:
+                d1, d2 = subs[0], subs[-1]
+                for with_arc, other in ((d1, d2), (d2, d1)):
+                    first = case["N"] % 2 == 0
+                    parts = ["%s %s%s" % (with_arc, case["mode"], arc), "%s %s" % (other, case["mode"])]
+                    plain_parts = ["%s %s" % (with_arc, case["mode"]), "%s %s" % (other, case["mode"])]
+                    if not first:
+                        parts.reverse()
+                        plain_parts.reverse()
+                    qa = "select path from " + ", ".join(parts) + " into list"
+                    qb = "select path from " + ", ".join(plain_parts) + " into list"
+                    ra = sb.run([qa], plan=plan, tz=case["tz"], config=config)
+                    rb = sb.run([qb], plan=plan, tz=case["tz"], config=config)
+                    if self.abnormal(ra) or self.abnormal(rb):
+                        viols.append(Violation(PROP, "C19.run", ["C19.run", "abnormal_end", "mixed_roots"], {"query": qa, "outcome": ra.summary()}))
+                        return viols
+                    rows_a = [r[0] for r in ra.rows(1)]
+                    want_m = collections.Counter(m[0] for m in members if m[0].startswith(lz_path("[" + with_arc + "/")))
+                    got_m = collections.Counter(r for r in rows_a if r.startswith(b"["))
+                    got_o = collections.Counter(r for r in rows_a if not r.startswith(b"["))
+                    if got_m != want_m or got_o != collections.Counter(r[0] for r in rb.rows(1)):
+                        viols.append(Violation(PROP, "C19.members", ["C19.members", "option_of_one_root_leaks_or_is_lost", "mixed_roots"],
+                                               {"query": qa, "missing": [b2s(x) for x in list((want_m - got_m).elements())[:4]], "extra": [b2s(x) for x in list((got_m - want_m).elements())[:4]]}))
+                        return viols
+                    ctx.metric("mixed_root_runs")
         return viols
 
     def central_range(self, data):
